@@ -8,25 +8,29 @@ Definition plain_ctor : ctor_args :=
   {| a_eph := TNone; a_hsdir := false; a_auth := ANone; a_stealth_kw := false; a_key := KNone; a_ver := VNone; a_single := TNone |}.
 Definition cfg_of (r : route) : cfg := {| g_route := r; g_pub := 80; g_bound := 45017; g_pending := false; g_bind_ok := true |}.
 
-Lemma late_refusal_refuted :
-  exists c ops, wf c ops = true /\ oracle c ops (lrun c ops) = false.
-Proof.
-  exists (cfg_of (RCtor {| a_eph := TNone; a_hsdir := false; a_auth := ANone; a_stealth_kw := false; a_key := KRsa;
-                           a_ver := V3; a_single := TNone |})), [].
-  vm_compute. auto.
-Qed.
+(* ---- regression anchors: the witnesses of the repaired findings C17-F1 (64ae05b) and C17-F2 (d08dcab) ---- *)
+Definition refused_only : list lrec := [{| l_evs := [ORefused]; l_open := 0 |}].
 
-Lemma string_started_tor_refuted :
-  exists c ops, wf c ops = true /\ late_refusal_v3_rsa_key c = false /\ oracle c ops (lrun c ops) = false.
-Proof.
-  exists (cfg_of (RStr {| s_hsd := true; s_key := KNone; s_keyfile := KFNone; s_ver := SVNone; s_hop := SHtrue;
-                          s_control := false |})), [].
-  vm_compute. auto.
-Qed.
+Lemma late_refusal_now_accepted :
+  let c := cfg_of (RCtor {| a_eph := TNone; a_hsdir := false; a_auth := ANone; a_stealth_kw := false; a_key := KRsa;
+                            a_ver := V3; a_single := TNone |}) in
+  let cs := cfg_of (RStr {| s_hsd := false; s_key := KRsa; s_keyfile := KFNone; s_ver := SV3; s_hop := SHNone;
+                            s_control := false |}) in
+  let cf := cfg_of (RStr {| s_hsd := false; s_key := KNone; s_keyfile := KFPem; s_ver := SV3; s_hop := SHNone;
+                            s_control := true |}) in
+  lrun c [] = refused_only /\ oracle c [] (lrun c []) = true
+  /\ lrun cs [] = refused_only /\ oracle cs [] (lrun cs []) = true
+  /\ lrun cf [] = refused_only /\ oracle cf [] (lrun cf []) = true.
+Proof. vm_compute. repeat split; reflexivity. Qed.
+
+Lemma string_started_tor_now_accepted :
+  let c := cfg_of (RStr {| s_hsd := true; s_key := KNone; s_keyfile := KFNone; s_ver := SVNone; s_hop := SHtrue;
+                           s_control := false |}) in
+  lrun c [] = refused_only /\ oracle c [] (lrun c []) = true.
+Proof. vm_compute. repeat split; reflexivity. Qed.
 
 Lemma disconnect_in_wait_refuted :
-  exists c ops, wf c ops = true /\ late_refusal_v3_rsa_key c = false /\ string_refused_after_tor_started c = false
-    /\ oracle c ops (lrun c ops) = false.
+  exists c ops, wf c ops = true /\ oracle c ops (lrun c ops) = false.
 Proof.
   exists (cfg_of (RCtor plain_ctor)), [LDesc Reply; LDesc (Ev KUpload 1 1); LDisconnect; LStop].
   vm_compute. auto.
@@ -57,7 +61,7 @@ Proof.
   destruct (p_ph s) as [|m|ok] eqn:Ph.
   - (* awaiting config *)
     destruct o as [| | |d| |]; try (inversion H; subst; unfold Kinv; cbn; rewrite ?Ph; repeat split; intros; try discriminate; auto; fail).
-    unfold config_ready in H. destruct (negb (g_bind_ok c)); [|destruct (late_invalid q)];
+    unfold config_ready in H. destruct (negb (g_bind_ok c));
       inversion H; subst; unfold Kinv; cbn; repeat split; intros; try discriminate; auto.
   - destruct o as [| | |d| |]; try (inversion H; subst; unfold Kinv; cbn; rewrite ?Ph; repeat split; intros; try discriminate; auto; fail).
     + (* HS_DESC / answer *)
@@ -108,7 +112,7 @@ Proof.
     destruct (listen_call c q) as [s evs] eqn:E. cbn [no_leak lsnap l_evs l_open].
     assert (G : Kinv s /\ (has_failure evs = true -> p_ph s = POver false)).
     { unfold listen_call, config_ready in E.
-      destruct (g_pending c); [|destruct (negb (g_bind_ok c)); [|destruct (late_invalid q)]];
+      destruct (g_pending c); [|destruct (negb (g_bind_ok c))];
         inversion E; subst; unfold Kinv; cbn; split; intros; try discriminate; auto. }
     destruct G as (HK & Hf). apply andb_true_iff. split.
     + destruct (has_failure evs) eqn:F; [|reflexivity]. cbn. destruct (HK (Hf eq_refl)) as (Ho & _). now rewrite Ho.
@@ -163,9 +167,8 @@ Lemma config_ready_lm c q s evs :
   exists nl nc b, loopback_and_mapping_evs c 0 0 false evs = ((nl, nc, b), true) /\ (nl <= 1)%nat /\ (nc <= 1)%nat
                   /\ p_ph s <> PCfg.
 Proof.
-  unfold config_ready. destruct (negb (g_bind_ok c)); [|destruct (late_invalid q)]; intros H; inversion H; subst; cbn.
+  unfold config_ready. destruct (negb (g_bind_ok c)); intros H; inversion H; subst; cbn.
   - exists 1%nat, 0%nat, false. repeat split; auto; discriminate.
-  - exists 1%nat, 0%nat, true. repeat split; auto; discriminate.
   - rewrite !N.eqb_refl. cbn. exists 1%nat, 1%nat, true. repeat split; auto; discriminate.
 Qed.
 
@@ -285,10 +288,7 @@ Ltac all_fields :=
 Definition refused_ok (r : route) : bool :=
   match request r with
   | Some _ => true
-  | None =>
-      let c := cfg_of r in
-      late_refusal_v3_rsa_key c || string_refused_after_tor_started c
-      || match build r with BRefused false => true | _ => false end
+  | None => match build r with BRefused false => true | _ => false end
   end.
 
 Lemma refused_ok_all r : refused_ok r = true.
@@ -296,15 +296,23 @@ Proof. destruct r as [a|t|s]; all_fields; vm_compute; reflexivity. Qed.
 
 Lemma invalid_refused_early r pub bound pend bind ops :
   let c := {| g_route := r; g_pub := pub; g_bound := bound; g_pending := pend; g_bind_ok := bind |} in
-  valid c = false -> late_refusal_v3_rsa_key c = false -> string_refused_after_tor_started c = false ->
-  lrun c ops = [{| l_evs := [ORefused]; l_open := 0 |}].
+  valid c = false -> lrun c ops = [{| l_evs := [ORefused]; l_open := 0 |}].
 Proof.
-  intros c Hv H1 H2. pose proof (refused_ok_all r) as H. unfold refused_ok in H.
+  intros c Hv. pose proof (refused_ok_all r) as H. unfold refused_ok in H.
   unfold valid in Hv. cbn [g_route c] in Hv. destruct (request r); [discriminate|].
-  unfold late_refusal_v3_rsa_key, string_refused_after_tor_started in *. cbn [g_route c cfg_of] in *.
-  rewrite H1, H2 in H. cbn [orb] in H. unfold lrun, construct_rec. cbn [g_route c].
+  unfold lrun, construct_rec. cbn [g_route c].
   destruct (build r) as [[|]|]; try discriminate. reflexivity.
 Qed.
+
+(* the converse: what the documentation calls valid is constructed *)
+Definition accepted_ok (r : route) : bool :=
+  match request r with
+  | Some _ => match build r with BOk _ _ => true | _ => false end
+  | None => true
+  end.
+
+Lemma accepted_ok_all r : accepted_ok r = true.
+Proof. destruct r as [a|t|s]; all_fields; vm_compute; reflexivity. Qed.
 
 (* ====================================================================================== *)
 (* The oracle on the whole configuration x fault-script product (finite; bounds stated)       *)
@@ -324,8 +332,7 @@ Definition fault_scripts : list (list lop) :=
     [ev15 KUpload 2 1; LDesc Reply; ev15 KUpload 1 1; ev15 KFailed 2 1; ev15 KUpload 1 2; ev15 KFailed 1 1];
     [LDesc Reply; LStop] ].
 
-Definition known_finding (c : cfg) (ops : list lop) : bool :=
-  late_refusal_v3_rsa_key c || string_refused_after_tor_started c || disconnect_while_waiting c ops.
+Definition known_finding (c : cfg) (ops : list lop) : bool := disconnect_while_waiting c ops.
 
 Definition product_ok (r : route) : bool :=
   forallb (fun pend => forallb (fun bind => forallb (fun ops =>
@@ -339,13 +346,12 @@ Proof. destruct r as [a|t|s]; all_fields; vm_compute; reflexivity. Qed.
 Lemma oracle_on_product r pend bind ops :
   In ops fault_scripts ->
   let c := {| g_route := r; g_pub := 80; g_bound := 45017; g_pending := pend; g_bind_ok := bind |} in
-  wf c ops = true -> late_refusal_v3_rsa_key c = false -> string_refused_after_tor_started c = false ->
-  disconnect_while_waiting c ops = false ->
+  wf c ops = true -> disconnect_while_waiting c ops = false ->
   oracle c ops (lrun c ops) = true.
 Proof.
-  intros Hin c Hw H1 H2 H3. pose proof (product_ok_all r) as H. unfold product_ok in H.
+  intros Hin c Hw H3. pose proof (product_ok_all r) as H. unfold product_ok in H.
   rewrite forallb_forall in H. assert (Hp : In pend [false; true]) by (destruct pend; cbn; auto).
   specialize (H pend Hp). rewrite forallb_forall in H. assert (Hb : In bind [false; true]) by (destruct bind; cbn; auto).
   specialize (H bind Hb). rewrite forallb_forall in H. specialize (H ops Hin). cbn beta zeta in H.
-  fold c in H. unfold known_finding in H. rewrite Hw, H1, H2, H3 in H. exact H.
+  fold c in H. unfold known_finding in H. rewrite Hw, H3 in H. exact H.
 Qed.
